@@ -209,7 +209,17 @@ def check_cell(rec, W, cell):
         if ncb == 2 and cl is None:
             # what a conditional response does before it is served (stores the computed length as a header)
             r.make_conditional(env)
-    it, st, hd = r.get_wsgi_response(env)
+    if (ncb + len(kind)) % 2:
+        # the way a server does it: the response object called as the WSGI application it is
+        started = []
+        it = r(env, lambda status_, headers_, exc_info=None: started.append((status_, headers_)))
+        rec.observe("responses_called_as_wsgi_applications")
+        if len(started) != 1:
+            rec.violation("C05/start_response-called-%d-times" % len(started), f"{cell}", case, monitor="H1")
+            return
+        st, hd = started[0]
+    else:
+        it, st, hd = r.get_wsgi_response(env)
     broken = False
     try:
         data = b"".join(it)
